@@ -80,7 +80,7 @@ def floors(tier):
         return {"snapshotted_calls": 500000, "exempt_inplace_calls": 5000, "copy_histories": 500, "suite_files_run": 80,
                 "dpt_source_with_swaps": 30, "mps_readonly_with_central_block": 30}
     return {"snapshotted_calls": 20000, "exempt_inplace_calls": 100, "copy_histories": 40, "dpt_source_with_swaps": 5,
-            "mps_readonly_with_central_block": 5}
+            "mps_readonly_with_central_block": 5, "svdvals_operand_with_row_or_column_block": 3}
 
 
 # ------------------------------------------------------------------ copy-independence histories
@@ -389,8 +389,26 @@ def hist_tensor_linalg(ctx, rng, nprng):
     a = h.to_yastn()
     if rng.random() < 0.5:
         a = a.transpose((1, 0, 3, 2))
-    which = rng.choice(("svd_trunc", "eigh", "eigh_trunc", "eig", "qr", "mask", "entropy", "block", "krylov"))
-    if which == "svd_trunc":
+    which = rng.choice(("svd_trunc", "eigh", "eigh_trunc", "eig", "qr", "mask", "entropy", "block", "krylov", "svdvals", "svdvals"))
+    if which == "svdvals":
+        # values-only decompositions of operands in their natural stored order (no pending permutation, axes in order): the
+        # merge step may hand the operand's own buffer to LAPACK; row / column blocks (a dimension-one sector on one side)
+        k1 = D.gen_leg(rng, sym, dmax=1)
+        k2 = D.gen_leg(rng, sym, dmax=4)
+        pair = [k1, k2] if rng.random() < 0.5 else [k2, k1]
+        for legs in (pair, [k1, l2, k2]):
+            g = D.gen_tensor(rng, nprng, sym, legs=legs, density=1.0, nmode="fit")
+            if not g.blocks:
+                continue
+            b = g.to_yastn()
+            ax = (0, 1) if len(legs) == 2 else rng.choice(((0, (1, 2)), ((0, 1), 2)))
+            yastn.svd(b, axes=ax, compute_uv=False)
+            b.svd(axes=ax, compute_uv=False)
+            yastn.linalg.svd(b, axes=ax, compute_uv=False, sU=-1)
+            ctx.count("svdvals_on_natural_order_operand")
+            if any(1 in blk.shape and max(blk.shape) > 1 for blk in g.blocks.values()):
+                ctx.count("svdvals_operand_with_row_or_column_block")
+    elif which == "svd_trunc":
         opts = {"D_total": 3, "tol": 1e-10, "D_block": {t: 2 for t in l1.ts} if rng.random() < 0.3 else 2}
         yastn.svd_with_truncation(a, axes=((0, 1), (2, 3)), **opts)
         U, S, V = yastn.svd(a, axes=((0, 1), (2, 3)))
